@@ -94,6 +94,8 @@ func main() {
 		c14Mode(args)
 	case "c14one":
 		c14OneMode(args)
+	case "reccheck":
+		recCheckMode(args)
 	case "c13":
 		c13Mode(args)
 	case "c17":
